@@ -130,7 +130,7 @@ func (g *G) exprInfo(want Ty, depth int) (*lang.Node, *vinfo) {
 			}
 		case 3:
 			// immediately invoked function literal
-			if g.fnDepth < 2 {
+			if g.fnDepth < 2 && !(g.o.ScopeIndep && g.loopDepth > 0 && g.fnDepth == 0) {
 				g.feat("iife")
 				g.push(true)
 				sl := g.loopDepth
